@@ -200,6 +200,8 @@ impl BufferParser for Parser {
                         '8' => {
                             if let Some(saved_caret) = &self.saved_cursor_opt {
                                 *caret = saved_caret.clone();
+                                // the screen may have scrolled since the cursor was saved
+                                buf.terminal_state.limit_caret_pos(buf, caret);
                             }
                             Ok(CallbackAction::Update)
                         }
